@@ -418,7 +418,9 @@ class Gen:
         self.flags.add("circuit-operation")
         pool = self.qid_pool(t.between(1, 2, "shared.qubits"), qudits=False)
         fa, inv_a, _ = self.frozen(pool, depth=1)
-        sa = ["share", "A", fa]
+        self._share_n += 1
+        tag = self._share_n          # share keys are unique within one recipe tree
+        sa = ["share", f"A{tag}", fa]
         shape = t.weighted([3, 3, 2, 2], "shared.shape")
         if shape == 0:
             return ["list", [sa, sa]]
@@ -426,7 +428,7 @@ class Gen:
             return ["circuit", [["moment", [["circuitop", sa, {}]]],
                                 ["moment", [["circuitop", sa, self.circuit_op_options(pool, inv_a, sa)]]]]]
         fb, inv_b, _ = self.frozen(pool, depth=1)
-        sb = ["share", "B", fb]
+        sb = ["share", f"B{tag}", fb]
         if shape == 2:
             return ["list", [["circuitop", sa, {}], ["circuitop", sb, {}],
                              ["circuitop", sa, self.circuit_op_options(pool, inv_a, sa)]]]
